@@ -27,6 +27,7 @@ _BASE_SELECTOR: Final = (
     .join(sql.Page, cast(ColumnElement, sql.Page.path == sql.Note.page_path))
     .distinct()
 )
+_LIKE_ESCAPE: Final = "\\"
 _LOGGER: Final = Logger(__name__)
 
 _ToSqlWhereHelper = Callable[["_AndFilterToSqlWhere"], Optional[ColumnElement]]
@@ -237,10 +238,12 @@ class _AndFilterToSqlWhere:
             if case_sensitive is None:
                 case_sensitive = not bool(desc_filter.value.islower())
 
-            like_arg = f"%{desc_filter.value}%".replace("_", "\\_")
+            like_arg = f"%{_escape_like(desc_filter.value)}%"
             op_arg: Any
             if case_sensitive:
-                cond = sql.Note.body.like(like_arg)  # type: ignore[attr-defined]
+                cond = sql.Note.body.like(  # type: ignore[attr-defined]
+                    like_arg, escape=_LIKE_ESCAPE
+                )
                 subquery = select(sql.Note.id, sql.Note.body).where(cond)
                 id_list: list[int] = []
                 for ID, body in self.session.exec(subquery).all():
@@ -261,7 +264,7 @@ class _AndFilterToSqlWhere:
                     DescOperator.CONTAINS: sql.Note.body.ilike,  # type: ignore[attr-defined]
                     DescOperator.NOT_CONTAINS: sql.Note.body.not_ilike,  # type: ignore[attr-defined]
                 }
-                op = partial(op_map[desc_filter.op], escape="\\")
+                op = partial(op_map[desc_filter.op], escape=_LIKE_ESCAPE)
                 op_arg = like_arg
 
             and_conds.append(op(op_arg))
@@ -279,7 +282,8 @@ class _AndFilterToSqlWhere:
                 if file_filter.negated
                 else sql.Page.path.like  # type: ignore[attr-defined]
             )
-            and_conds.append(like_op(file_filter.path_glob.replace("*", "%")))
+            like_arg = _escape_like(file_filter.path_glob).replace("*", "%")
+            and_conds.append(like_op(like_arg, escape=_LIKE_ESCAPE))
         return and_(and_conds[0], *and_conds[1:])
 
     @_to_sql_where_helper
@@ -303,7 +307,9 @@ class _AndFilterToSqlWhere:
             subquery = base_subquery.where(
                 or_(
                     sql.Link.name == link_name,
-                    like_op(f"{link_name}#%"),
+                    like_op(
+                        f"{_escape_like(link_name)}#%", escape=_LIKE_ESCAPE
+                    ),
                     *_global_link_conds(notes_in_file),
                     *_ref_link_conds(notes_in_file),
                     *_zid_link_conds(notes_in_file),
@@ -351,6 +357,13 @@ def _zid_link_conds(notes: Iterable[sql.Note]) -> list[ColumnElement]:
     for note in notes:
         conds.append(cast(ColumnElement, sql.Link.name == f"zid:{note.zid}"))
     return conds
+
+
+def _escape_like(value: str) -> str:
+    """Escapes the characters that are special in a SQL LIKE pattern."""
+    for ch in (_LIKE_ESCAPE, "%", "_"):
+        value = value.replace(ch, f"{_LIKE_ESCAPE}{ch}")
+    return value
 
 
 def _noop(value: _T) -> _T:
